@@ -84,6 +84,27 @@ func runC02(r *simrt.Run) {
 			f.pending = append(f.pending, b)
 		}
 	}
+	// clients may also talk to a live follower: their blocks are built on the follower's view
+	// (possibly behind the producer) and reach the producer after a gossip delay, so they wait
+	// in pools while the ledger moves on
+	type late struct {
+		at int64
+		b  *nom.AccountBlock
+	}
+	var toProducer []late
+	clientOnFollower := t.Choose(3) != 0
+	for _, f := range fs {
+		f := f
+		f.n.OnBlock = func(_ *simnode.Node, b *nom.AccountBlock) {
+			toProducer = append(toProducer, late{w.Slot + int64(t.Choose(4)), b})
+			for _, o := range fs {
+				if o != f {
+					o.pending = append(o.pending, b)
+				}
+			}
+			r.Probe("block-created-on-follower")
+		}
+	}
 	wl := nomsim.NewWorkload(w, mode)
 	wl.MaxOps = 2 + t.Choose(5)
 	ackDepthMax := []int{0, 3, 25}[t.Choose(3)]
@@ -155,6 +176,24 @@ func runC02(r *simrt.Run) {
 	step := func(s int) {
 		wl.G.RefreshTokens(p)
 		wl.Ops(p)
+		if clientOnFollower {
+			for _, f := range fs {
+				if f.mode == 0 && f.n.Up && f.n.Height()+2 >= p.Height() && t.Choose(3) == 0 {
+					t.Span(func() { wl.Ops(f.n) })
+				}
+			}
+		}
+		// gossip from followers reaches the producer when due
+		var rest []late
+		for _, l := range toProducer {
+			if l.at <= w.Slot {
+				err := p.Bridge.AddAccountBlocks([]*nom.AccountBlock{l.b})
+				r.Logf("late gossip %s/%d -> P err=%v", l.b.Address.String()[:8], l.b.Height, err != nil)
+			} else {
+				rest = append(rest, l)
+			}
+		}
+		toProducer = rest
 		if t.Choose(12) == 0 {
 			w.SkipSlots(int64(1 + t.Choose(35)))
 			r.Fault("missed-slots")
